@@ -68,12 +68,12 @@ Fired == exc # <<>>                 \* decided by the model: does the injected f
 C01 == (Rec.outcome = "done" /\ ~Fired) => Rec.out = Eval(steps)
 C04 == /\ Fired => /\ Rec.outcome = "failed" /\ Rec.causeStep = exc.at
                    /\ \A j \in ObsIdx : j > exc.at => ~RecObs(j).committed
-                   /\ \A j \in FinIdx : j > exc.at => RecFin(j).calls = 0
        /\ ~Fired => Rec.outcome = "done"
 C05 == /\ \A i \in ObsIdx : RecObs(i).committed => RecObs(i).persisted = EvalPrefix(steps, i)
        /\ (~Fired /\ Rec.outcome = "done") => /\ \A i \in ObsIdx : RecObs(i).committed
                                              /\ \A i \in FinIdx : RecFin(i).calls = 1
        /\ \A i \in FinIdx : RecFin(i).calls <= 1
+       /\ Fired => \A j \in FinIdx : j > exc.at => RecFin(j).calls = 0      \* the stream never ended at j: "after the last row" never came
 C06 == ~Buffering => Rec.maxLook <= LookBound
 
 \* conformance of the final state (model vs recorded); not a property, drift if it fails alone
